@@ -154,9 +154,9 @@ def case_binary(H, g, opname, sa, sb):
     H.prove(name + '/items', hyp, z3.And([a == b for a, b in zip(oterms, items)]) if ok_len else z3.BoolVal(False), replay=replay, key='C06/batch/%s' % opname, timeout=15)
 
 
-def case_unary(H, g, opname, sa):
+def case_unary(H, g, opname, sa, tag=''):
     fn, ka, kout = UNARY[opname]
-    name = 'C06/batch/%s/%s/%s' % (g, opname, sa)
+    name = 'C06/batch/%s/%s/%s%s' % (g, opname, sa, tag)
     ctx = Ctx()
     try:
         with SymMode(ctx) as m:
@@ -493,10 +493,16 @@ def run(H):
     H.assumptions += ['exact real arithmetic', 'CPU tensors', 'non-mutation: operators without a handler havoc their outputs (only writes into argument memory matter)']
     H.bounds += ['lshapes: rank <= 2, extents {0,1,2} (quick) / rank <= 3, extents {0,1,2,3} (thorough), every broadcastable pair',
                  'groups SO3 and SE3 for the polynomial operations (quick), all four (thorough); Exp/Log batches of <= 2 items',
-                 'non-mutation: curated list of public calls (listed in the evidence samples)']
+                 'non-mutation: curated list of public calls (listed in the evidence samples)', 'call order: unary operations first called on rank 3, then 2, 1, 0 batches in a fresh process, then in ascending order']
     shp = lshapes(H.quick)
     groups = ['SO3', 'SE3'] if H.quick else GROUPS
     t0 = time.time()
+    # call-order configuration: the very first calls in this process go from the highest batch rank down (a result must not
+    # depend on what was called before; the main loops below go upwards)
+    for g in groups:
+        for opname in UNARY:
+            for sa in ((2, 1, 2), (1, 2), (2,), ()):
+                case_unary(H, g, opname, sa, tag='/first-calls-descending-rank')
     for g in groups:
         for opname in BINARY:
             pairs = [(a, b) for a in shp for b in shp if broadcastable(a, b) is not None]
